@@ -72,6 +72,7 @@ static void vf_crash_handler(int sig) {
   vf_log_flush();
   _exit(0);
 }
+static unsigned vf_watchdog = 0;      /* seconds one API call may take before the run is ended with a crash event (signal 14): set by the sequential drivers */
 static void vf_log_open(const char* path) {
   vf_log_fd = open(path, O_WRONLY | O_CREAT | O_TRUNC, 0644);
   if (vf_log_fd < 0) { perror("open trace"); exit(3); }
@@ -85,7 +86,7 @@ static void vf_log_open(const char* path) {
   sigaltstack(&ss, NULL);
   sa.sa_flags = SA_ONSTACK;
   sigaction(SIGSEGV, &sa, NULL); sigaction(SIGBUS, &sa, NULL); sigaction(SIGABRT, &sa, NULL);
-  sigaction(SIGILL, &sa, NULL); sigaction(SIGFPE, &sa, NULL);
+  sigaction(SIGILL, &sa, NULL); sigaction(SIGFPE, &sa, NULL); sigaction(SIGALRM, &sa, NULL);
 }
 static void vf_log_close(void) { vf_linestart = vf_loglen; vf_log_flush(); if (vf_log_fd >= 0) close(vf_log_fd); vf_log_fd = -1; }
 
